@@ -90,7 +90,9 @@ def check (op : String) : Rd Verdict := do
     return specFail (path ++ "/spec/den") s!"in={describe a} out={describe out}" feats
   -- order postconditions on the implementation's output (so that the tie canonicalisation below
   -- cannot hide an unsorted result)
-  let needSorted := op == "sort" || op == "addnodup"
+  -- `sort` on a matrix whose `sorted` flag is set is a no-op by contract (the flag also covers the sorted-then-diagonal-first
+  -- layout): the order clause applies when a sort really happens
+  let needSorted := (op == "sort" && !a.sorted) || op == "addnodup"
   let needStrict := (op == "rmdup" && !a.sorted) || op == "add" || op == "sub"
   if !out.isBlock && (needSorted || needStrict) then
     let okLine (l : List (Nat × Int)) : Bool :=
